@@ -4,10 +4,13 @@ package packagedeploy
 
 import (
 	"context"
+	"encoding/json"
 	"strconv"
 
+	"k8s.io/apiextensions-apiserver/pkg/apis/apiextensions"
 	"k8s.io/apimachinery/pkg/api/meta"
 	metav1 "k8s.io/apimachinery/pkg/apis/meta/v1"
+	"k8s.io/apimachinery/pkg/runtime"
 	"sigs.k8s.io/controller-runtime/pkg/client"
 
 	corev1alpha1 "package-operator.run/apis/core/v1alpha1"
@@ -69,6 +72,32 @@ func VerifC16Deploy() {
 	man.Name = "demo"
 	man.Spec.Scopes = []manifests.PackageManifestScope{manifests.PackageManifestScopeNamespaced}
 	man.Spec.Phases = []manifests.PackageManifestPhase{{Name: "deploy"}}
+	// configuration schema of the manifest and configuration of the Package
+	configOK := true
+	if verifrt.Bound("withConfig", 0) == 1 {
+		schemaRequires := verifrt.Bool("manifest.config.requiresReplicas")
+		if schemaRequires {
+			man.Spec.Config.OpenAPIV3Schema = &apiextensions.JSONSchemaProps{
+				Type:       "object",
+				Properties: map[string]apiextensions.JSONSchemaProps{"replicas": {Type: "integer"}},
+				Required:   []string{"replicas"},
+			}
+		}
+		hasReplicas := false
+		switch verifrt.IntRange("spec.config", 0, 3) { // absent | {} | {replicas: 2} | {other: x}
+		case 1:
+			raw, _ := json.Marshal(map[string]interface{}{})
+			apiPkg.Spec.Config = &runtime.RawExtension{Raw: raw}
+		case 2:
+			raw, _ := json.Marshal(map[string]interface{}{"replicas": 2})
+			apiPkg.Spec.Config = &runtime.RawExtension{Raw: raw}
+			hasReplicas = true
+		case 3:
+			raw, _ := json.Marshal(map[string]interface{}{"other": "x"})
+			apiPkg.Spec.Config = &runtime.RawExtension{Raw: raw}
+		}
+		configOK = !schemaRequires || hasReplicas
+	}
 	// constraints
 	nC := verifrt.IntRange("nConstraints", 0, verifrt.Bound("maxConstraints", 2))
 	needsOpenShift, unique := false, false
@@ -145,7 +174,7 @@ func VerifC16Deploy() {
 
 	constraintsMet := !(needsOpenShift && !onOpenShift) && !(unique && others > 1) && !(needsNewK8s && !k8sNew) &&
 		!(needsNewOpenShift && onOpenShift && !osNew)
-	admissible := loadOK && constraintsMet && renderOK
+	admissible := loadOK && constraintsMet && configOK && renderOK
 	invalid := meta.FindStatusCondition(apiPkg.Status.Conditions, corev1alpha1.PackageInvalid)
 	isInvalid := invalid != nil && invalid.Status == metav1.ConditionTrue
 
@@ -160,6 +189,10 @@ func VerifC16Deploy() {
 		// err == nil: the controller persists the status only for passes that return no error (checked by VerifC16Controller)
 		verifrt.Assert(isInvalid && invalid.ObservedGeneration == 4 && err == nil, "C16/unmet-constraint-reported-in-persisted-invalid-condition")
 		verifrt.Reach("constraint-unmet")
+	}
+	if loadOK && constraintsMet && !configOK {
+		verifrt.Assert(isInvalid, "C16/configuration-violating-the-schema-reported-invalid")
+		verifrt.Reach("config-invalid")
 	}
 	if admissible && rec.err == nil {
 		verifrt.Assert(err == nil && !isInvalid, "C16/success-clears-invalid")
